@@ -45,7 +45,9 @@ var families = []family{
 	{"dot-and-empty-segments", func(n int) string { return "http://h" + strings.Repeat("/.//a", n/5) }, "parse"},
 	{"file-drive-and-dot-dot", func(n int) string { return "file:///C:" + strings.Repeat("/a/b/..", n/7) }, "parse"},
 	{"relative-two-segments-then-dot-dot", func(n int) string { return strings.Repeat("a/b/../", n/7) }, "resolve"},
-	{"credentials-escaped", func(n int) string { return "http://" + strings.Repeat("%41", n/6) + ":" + strings.Repeat(" ", n/2) + "@h/" }, "parse"},
+	{"credentials-escaped", func(n int) string {
+		return "http://" + strings.Repeat("%41", n/6) + ":" + strings.Repeat(" ", n/2) + "@h/"
+	}, "parse"},
 	{"at-and-colon-mixed", func(n int) string { return "http://" + strings.Repeat("a:@", n/3) + "h/" }, "parse"},
 	{"query-many-empty-pairs", func(n int) string { return "http://h/?" + strings.Repeat("&", n) }, "searchparams"},
 	{"query-plus-and-escapes", func(n int) string { return "http://h/?" + strings.Repeat("a+b=%20c&", n/9) }, "searchparams"},
